@@ -333,11 +333,23 @@ def generate(problems):
             if isinstance(sub, ast.Assign) and len(sub.targets) == 1 and isinstance(sub.targets[0], ast.Name) and sub.targets[0].id == "fsspec_mode":
                 probe.append(ast.unparse(sub))
         for sub in ast.walk(ast.Module(body=pif.body, type_ignores=[])):
+            if isinstance(sub, ast.If) and any(isinstance(x, ast.Try) for x in sub.body):
+                probe.append("if " + ast.unparse(sub.test))
+        for sub in ast.walk(ast.Module(body=pif.body, type_ignores=[])):
             if isinstance(sub, ast.Try):
                 for st in sub.body:
                     v = getattr(st, "value", None)
                     if isinstance(v, ast.Call):
                         probe.append(ast.unparse(v))
+
+    # the fsspec block: which file its overwrite check and its open look at
+    fs_files = []
+    for sub in (ast.walk(fs_if[0]) if len(fs_if) == 1 else []):
+        if isinstance(sub, ast.Assign) and any(n in ast.unparse(sub.targets[0]) for n in ("path_s", "fs_path")):
+            fs_files.append(ast.unparse(sub))
+    for sub in (ast.walk(fs_if[0]) if len(fs_if) == 1 else []):
+        if isinstance(sub, ast.Call) and _call_name(sub) == ("open", "fsspec"):
+            fs_files.append("open:" + ", ".join(ast.unparse(a) for a in sub.args))
 
     # every statement of save() (docstring excluded), normalised by ast.unparse
     stmts = [ast.unparse(st) for st in save.body
@@ -357,6 +369,7 @@ def generate(problems):
     body += "def fsspecSteps : List String := %s\n" % lean_str_list(fsspec_steps)
     body += "def saveTopLevel : List String := %s\n" % lean_str_list(pos)
     body += "def pathFsspecProbe : List String := %s\n" % lean_str_list(probe)
+    body += "def fsspecFileExprs : List String := %s\n" % lean_str_list(fs_files)
     body += "def fileExprs : List String := %s\n" % lean_str_list(file_exprs(save))
     body += "def saveSignature : String := %s\n" % lean_str(sig)
     body += "def saveStatements : List String :=\n  [%s]\n" % ",\n   ".join(lean_str(x) for x in stmts)
